@@ -772,11 +772,14 @@ impl Value {
                             ctx.add_variable_from_value(&comprehension.accu_var, accu);
                         }
                     }
-                    t => todo!("Support {t:?}"),
+                    t => return Err(ExecutionError::unsupported_target_type(t)),
                 }
                 Value::resolve(comprehension.result.deref(), &ctx)
             }
-            Expr::Struct(_) => todo!("Support structs!"),
+            Expr::Struct(_) => Err(ExecutionError::function_error(
+                "struct",
+                "struct literals are not supported",
+            )),
             Expr::Unspecified => panic!("Can't evaluate Unspecified Expr"),
         }
     }
